@@ -168,6 +168,12 @@ Definition c14_run (case obs : list string) : string :=
       | ["B"; "0"] => "B 0 | T T"
       | _ => "REJECTED a-non-JSON-message-was-put-into-a-JSON-stream | F T"
       end
+  | ["burst"] =>
+      (* template registrations across a refresh tick: nothing to compare (race detector scenario) *)
+      match obs with
+      | ["B"; "ok"] => "B ok | T T"
+      | _ => "REJECTED burst | F T"
+      end
   | ["leak"] =>
       match obs with
       | ["G"; "0"] => "G 0 | T T"
